@@ -222,7 +222,12 @@ Definition judge_rule (case obs : sx) : sx :=
               | _, _ => false end
             else if String.eqb meth "fixed_width" then
               match fixed_ok, (x <- fld "bin_width" case ;; d_q x), (x <- fld "want_shift" case ;; d_opt d_q x) with
-              | Some (w, sh, g), Some bw, Some ws => g && Qceqb w bw && match ws with Some s => Qceqb sh s | None => true end
+              | Some (w, sh, g), Some bw, Some ws =>
+                  g && Qceqb w bw && match ws with Some s => Qceqb sh s | None => true end &&
+                  (* align=False: the grid starts at the smallest value itself *)
+                  match fld "align" case, range with
+                  | Some (SS "F"), None => near (first_edge l) lo (Qcmax (Qcabs lo) w)
+                  | _, _ => true end
               | _, _, _ => false end
             else if String.eqb meth "fixed_min" then
               (* FixedWidthBinning(bin_width=w, bin_count=k, min=m): k equal bins on the grid, the first one starting at m *)
